@@ -298,6 +298,8 @@ tagspec(struct scope *s)
 			if (!consume(TCOMMA))
 				break;
 		}
+		if (!enumconsts)
+			error(&tok.loc, "enum has no enumerators");
 		expect(TRBRACE, "to close enum specifier");
 		if (!t->base) {
 			if (min <= 0x80000000 && max <= 0x7fffffff) {
